@@ -21,6 +21,7 @@ RULE = ('consumer probes whose parameters are bound (by config text) to value tr
         '(parameters bound to a macro as a whole whose value holds evaluated references); references to configurable generator functions whose results are '
         'read lazily (by the consumer or after it) and stay suspended across the consumer calls until exhausted / closed / dropped: the active scope while they '
         'are suspended, their items (scoped bindings of the generator function) and everything the main model says about the calls in between. '
+        'Special: a reference written (skip_unknown) before its target was registered - refused or, if delivered, run under exactly the written scope. '
         'distinct = (tree shape, reference kinds, ambient depth, override pattern, #calls, scoped provider bindings, ambient program, between-ops, caller values)')
 TIERS = {
     'quick': {'workers': 8, 'cases': 1000, 'timeout': 600},
